@@ -157,10 +157,10 @@ def Eqv : UStore → UStore → Prop
   | s₁, s₂ => s₁ = s₂
 
 /-- Well-formedness: hash lists have duplicate-free keys. -/
-def WF : UStore → Prop
+def HWF : UStore → Prop
   | hash l => (l.map (·.1)).Nodup
-  | flagged i _ _ => WF i
-  | derefFlagged i _ _ => WF i
+  | flagged i _ _ => HWF i
+  | derefFlagged i _ _ => HWF i
   | _ => True
 
 /-- Inductive presentation of `Eqv` (gives the induction principle used below). -/
@@ -210,10 +210,10 @@ theorem Eqv.toI : ∀ {s₁ s₂}, Eqv s₁ s₂ → EqvI s₁ s₂ := by
 theorem eqv_iff_eqvI {s₁ s₂} : Eqv s₁ s₂ ↔ EqvI s₁ s₂ := ⟨Eqv.toI, EqvI.toEqv⟩
 
 /-- Reflexivity is exactly well-formedness. -/
-theorem eqv_self_iff_wf (s : UStore) : Eqv s s ↔ WF s := by
-  induction s <;> simp_all [Eqv, WF]
+theorem eqv_self_iff_wf (s : UStore) : Eqv s s ↔ HWF s := by
+  induction s <;> simp_all [Eqv, HWF]
 
-theorem Eqv.refl {s : UStore} (h : WF s) : Eqv s s := (eqv_self_iff_wf s).2 h
+theorem Eqv.refl {s : UStore} (h : HWF s) : Eqv s s := (eqv_self_iff_wf s).2 h
 
 theorem Eqv.symm {s₁ s₂} (h : Eqv s₁ s₂) : Eqv s₂ s₁ := by
   replace h := h.toI
@@ -239,11 +239,11 @@ theorem Eqv.trans {s₁ s₂ s₃} (h : Eqv s₁ s₂) (h' : Eqv s₂ s₃) : Eq
     exact eqv_derefFlagged.2 ⟨ih h1, rfl, rfl⟩
   | _ => exact h'
 
-theorem Eqv.wf_left {s₁ s₂} (h : Eqv s₁ s₂) : WF s₁ := (eqv_self_iff_wf _).1 (h.trans h.symm)
-theorem Eqv.wf_right {s₁ s₂} (h : Eqv s₁ s₂) : WF s₂ := (eqv_self_iff_wf _).1 (h.symm.trans h)
+theorem Eqv.wf_left {s₁ s₂} (h : Eqv s₁ s₂) : HWF s₁ := (eqv_self_iff_wf _).1 (h.trans h.symm)
+theorem Eqv.wf_right {s₁ s₂} (h : Eqv s₁ s₂) : HWF s₂ := (eqv_self_iff_wf _).1 (h.symm.trans h)
 
-theorem wf_newStore (k : Nat) : WF (newStore k) := by
-  unfold newStore; split <;> simp [WF]
+theorem wf_newStore (k : Nat) : HWF (newStore k) := by
+  unfold newStore; split <;> simp [HWF]
 
 /-! ## Every storage function respects the relation -/
 
@@ -387,26 +387,26 @@ theorem clean_eqv {s₁ s₂} (h : Eqv s₁ s₂) (has : BSet) :
 
 /-! Preservation of well-formedness by every operation (consequences of the above). -/
 
-theorem wf_insert {s : UStore} (h : WF s) {id v s' d} (he : s.insert id v = .ok (s', d)) : WF s' := by
+theorem wf_insert {s : UStore} (h : HWF s) {id v s' d} (he : s.insert id v = .ok (s', d)) : HWF s' := by
   have := insert_eqv (Eqv.refl h) id v
   rw [he] at this; exact this.1.wf_left
 
-theorem wf_poke {s : UStore} (h : WF s) {id v s'} (he : s.poke id v = .ok s') : WF s' := by
+theorem wf_poke {s : UStore} (h : HWF s) {id v s'} (he : s.poke id v = .ok s') : HWF s' := by
   have := poke_eqv (Eqv.refl h) id v
   rw [he] at this; exact Eqv.wf_left this
 
-theorem wf_remove {s : UStore} (h : WF s) {id s' v} (he : s.remove id = .ok (s', v)) : WF s' := by
+theorem wf_remove {s : UStore} (h : HWF s) {id s' v} (he : s.remove id = .ok (s', v)) : HWF s' := by
   have := remove_eqv (Eqv.refl h) id
   rw [he] at this; exact this.1.wf_left
 
-theorem wf_clean {s : UStore} (h : WF s) {has s' d} (he : s.clean has = .ok (s', d)) : WF s' := by
+theorem wf_clean {s : UStore} (h : HWF s) {has s' d} (he : s.clean has = .ok (s', d)) : HWF s' := by
   have := clean_eqv (Eqv.refl h) has
   rw [he] at this; exact this.1.wf_left
 
-theorem wf_touch {s : UStore} (h : WF s) (id d : Nat) : WF (s.touch id d) :=
+theorem wf_touch {s : UStore} (h : HWF s) (id d : Nat) : HWF (s.touch id d) :=
   (touch_eqv (Eqv.refl h) id d).wf_left
 
-theorem wf_setEmit {s : UStore} (h : WF s) (b : Bool) : WF (s.setEmit b) :=
+theorem wf_setEmit {s : UStore} (h : HWF s) (b : Bool) : HWF (s.setEmit b) :=
   (setEmit_eqv (Eqv.refl h) b).wf_left
 
 end UStore
@@ -420,7 +420,7 @@ namespace SpecsModel
 def Masked.Eqv (m₁ m₂ : Masked) : Prop := m₁.mask = m₂.mask ∧ UStore.Eqv m₁.inner m₂.inner
 
 /-- Well-formed masked storage. -/
-def Masked.WF (m : Masked) : Prop := m.inner.WF
+def Masked.WF (m : Masked) : Prop := m.inner.HWF
 
 /-- Related storage-level results: related storages, equal values, destroyed lists equal up to
     order. -/
@@ -1542,7 +1542,7 @@ def shuffleStore (seed : Nat) : UStore → UStore
   | .derefFlagged i ev em => .derefFlagged (shuffleStore seed i) ev em
   | s => s
 
-theorem shuffleStore_eqv (seed : Nat) {s : UStore} (h : s.WF) : UStore.Eqv s (shuffleStore seed s) := by
+theorem shuffleStore_eqv (seed : Nat) {s : UStore} (h : s.HWF) : UStore.Eqv s (shuffleStore seed s) := by
   induction s with
   | hash l => exact UStore.eqv_hash.2 ⟨(shuffleList_perm seed l).symm, h⟩
   | flagged i ev em ih => exact UStore.eqv_flagged.2 ⟨ih h, rfl, rfl⟩
